@@ -236,7 +236,7 @@ def _integral_matching_stretch(x, y, integral_value=0, integral_method='trapezoi
     if x is None:
         x = np.arange(len(y) * dx, step=dx)
     else:
-        x = np.array(x)
+        x = np.array(x, dtype=float)
 
     if integral_method not in ['trapezoid', 'rectangle']:
         raise ValueError("Unknown integral method")
